@@ -147,11 +147,14 @@ def keys_mode(tier, nohash):
 WORK = [
     (('a',), {}), ((1.5,), {'b': 'z'}), ((1, 2, 3), {'k': 2, 'w': 'q'}), (((1, 'a'),), {'b': (2.5,)}),
     ((), {'a': 'kw', 'b': 7}), ((b'by',), {'k': None}), ((10 ** 20, 1, 'x'), {'z': 1, 'y': 2}), ((True,), {}),
+    ((1,), {'p': 1, 'q': 'two', 'r': 2.5}), ((2,), {'b': 'bee', 'q': None, 'p': (1,)}),
 ]
 # the same calls, spelled differently (keyword order permuted, defaults spelled out)
 WORK_B = [
     ((), {'a': 'a'}), ((), {'b': 'z', 'a': 1.5}), ((1, 2, 3), {'w': 'q', 'k': 2}), ((), {'b': (2.5,), 'a': (1, 'a')}),
     ((), {'b': 7, 'a': 'kw'}), ((b'by', 1), {'k': None}), ((10 ** 20, 1, 'x'), {'y': 2, 'z': 1, 'k': 1}), ((True, 1), {'k': 1}),
+    # extra keywords of different types, given in another order
+    ((1,), {'r': 2.5, 'q': 'two', 'p': 1}), ((), {'p': (1,), 'q': None, 'a': 2, 'b': 'bee'}),
 ]
 
 
@@ -166,8 +169,11 @@ def e2e_configs(which='c17'):
     for mod in ('klepto', 'safe'):
         for alg in ('no', 'inf', 'lru', 'lfu', 'mru', 'rr'):
             for arch in ('file', 'dir', 'sql'):
-                for km in ('stringmap()', 'stringmap(flat=False)', 'picklemap(pickle)', 'hashmap(md5)'):
+                for km in ('stringmap()', 'stringmap(flat=False)', 'picklemap(pickle)', 'hashmap(md5)', 'hashmap(sha1,typed)',
+                           'stringmap(typed,flat=False)', 'keymap(typed)'):
                     if alg not in ('lru', 'inf') and km not in ('stringmap(flat=False)', 'hashmap(md5)'):
+                        continue
+                    if 'typed' in km and arch != 'file':
                         continue
                     out.append((mod, alg, arch, km))
     return out
